@@ -37,12 +37,19 @@ func kConcurrent(c J) interface{} {
 		return cfg, nil
 	}
 	// using the config as a merge source for a pre-filled destination, under a policy
+	// (the option values of a destination are built once and used by every goroutine: an Option is a value a program
+	// keeps and hands to many calls)
+	sharedOpts := map[string][]ucfg.Option{}
+	for _, d := range arr(c, "dsts") {
+		spec := d.(map[string]interface{})
+		sharedOpts[mustJSON(spec["opts"])] = buildOpts(spec["opts"])
+	}
 	mergeInto := func(src *ucfg.Config, spec map[string]interface{}) string {
 		dst, err := ucfg.NewFrom(buildValue(spec["from"]), buildOpts(spec["copts"])...)
 		if err != nil {
 			return "dst: " + err.Error()
 		}
-		if err := dst.Merge(src, buildOpts(spec["opts"])...); err != nil {
+		if err := dst.Merge(src, sharedOpts[mustJSON(spec["opts"])]...); err != nil {
 			return mustJSON(errKind(err))
 		}
 		return mustJSON(fpValues(ucfg.VerifFingerprint(dst)))
